@@ -227,6 +227,7 @@ def stepTok (c : Cl) (o : Out) (tok : String) : Option (Cl × Out) :=
       let (c1, r, h1) := doKeyed acc.1 "set" kv.1 kv.2
       (c1, acc.2.1 + (match r with | .ok => 0 | _ => 1), acc.2.2 + h1)) (c, 0, 0)
     emitK (kvs.map (·.1)) c' (if bad == 0 then .ok else .err (bytesOf s!"finished with {bad} error(s)")) h
+  else if ch == 'Q' then body.toNat?.map fun _ => (c, o)   -- the node freezes (keeps its connections, answers nothing): scripts do not address it afterwards
   else if ch == 'X' || ch == 'H' then body.toNat?.map fun n => ({ c with up := updF c.up n false, settled := false }, o)   -- H: connects time out instead of being refused
   else if ch == 'U' then body.toNat?.map fun n => ({ c with up := updF c.up n true }, o)
   else if ch == 'Z' then body.toNat?.map fun _ => (c, o)
